@@ -305,9 +305,12 @@ def findBwd (d : Doc) (c : Char) (inLine : Bool) (count : Nat) : Option Int :=
 /-- ASCII `[a-zA-Z0-9_]` -/
 def isWordChar (c : Char) : Bool := c.isAlphanum || c = '_'
 
-/-- character class of the word regexes: 0 = `\s`, 1 = word (or any non-space for WORD), 2 = other -/
+/-- character class of the word regexes, alternatives tried in the order of the pattern:
+    `_FIND_WORD_RE = ([a-zA-Z0-9_]+|[^a-zA-Z0-9_\s]+)` : 1 = `[a-zA-Z0-9_]` (tested FIRST), then
+    0 = `\s`, else 2;  `_FIND_BIG_WORD_RE = ([^\s]+)` : 0 = `\s`, else 1 -/
 def cls (reSpace : Char → Bool) (big : Bool) (c : Char) : Nat :=
-  if reSpace c then 0 else if big then 1 else if isWordChar c then 1 else 2
+  if big then (if reSpace c then 0 else 1)
+  else if isWordChar c then 1 else if reSpace c then 0 else 2
 
 /-- matches `(start, end)` of `_FIND_WORD_RE` / `_FIND_BIG_WORD_RE` `.finditer(t)`:
     the maximal runs of one non-zero class -/
@@ -334,8 +337,9 @@ def findNextWordBeginning (sp : Char → Bool) (d : Doc) (count : Nat) (big : Bo
   let count' := match ms with
     | (0, _) :: _ => count + 1
     | _ => count
-  -- (with count = 0 the first iteration already has `i + 1 > count`, bumped or not)
-  (if count = 0 then none else nth ms count').map fun (m : Nat × Nat) => (m.1 : Int)
+  -- `if i + 1 == count: return match.start(1)` (count = 0: only the bumped count 1 is ever reached,
+  -- `Document('ab cd', 0).find_next_word_beginning(count=0) == 0`)
+  (nth ms count').map fun (m : Nat × Nat) => (m.1 : Int)
 
 /-- `find_next_word_ending(count, WORD)` (include_current_position = False) -/
 def findNextWordEnding (sp : Char → Bool) (d : Doc) (count : Nat) (big : Bool) : Option Int :=
